@@ -1,5 +1,5 @@
 import VgiVerif.Prelude.Sched
-import VgiVerif.Gen.Sticky
+import VgiVerif.Gen.C26
 /-
 C26 model: `vgi_rpc/http/server/_sticky.py` — the locking protocol of sticky sessions (as repaired by
 "fix: sticky session close hook could run during, and calls could dispatch after, the end of their session").
@@ -21,7 +21,7 @@ stored principal check `pmatch`), one `RLock` and one `closed` flag per entry.  
 `cstart`, `cend`) records exactly what the spec's observer computes from the begin/end/close events.
 -/
 namespace VgiVerif.C26
-open VgiVerif.Sched VgiVerif.Gen.Sticky
+open VgiVerif.Sched VgiVerif.Gen.C26
 
 /-- session identifiers (allocation order of `secrets.token_bytes`) -/
 abbrev Sid := Nat
